@@ -996,3 +996,246 @@ Lemma dedup_orig_refuted :
   exists cs v, map g_name (dedup_orig (sort_values cs)) = ["C"] /\ primary cs v = Some "B"
                /\ map g_name (dedup (sort_values cs)) = ["B"].
 Proof. exists abc_consts, 1. exact dedup_orig_abc. Qed.
+
+(* ================================================================== Part 4: codecs (C05) *)
+
+Section Codecs.
+  Variable d : defn.
+  Variable o : opts.
+  Variable t : tables.
+  Hypothesis Hwf : wf_defn d.
+  Hypothesis Hgen : gen d o = Built t.
+
+  Let cs := d_consts d.
+
+  Lemma try_all_head : forall x rest v, sem_parse t x = Some v -> try_all t (x :: rest) = Some v.
+  Proof. intros x rest v H. simpl. rewrite H. reflexivity. Qed.
+
+  Lemma try_all_none : forall l, (forall x, In x l -> sem_parse t x = None) -> try_all t l = None.
+  Proof.
+    induction l as [|x r IH]; intros H; simpl; [reflexivity|].
+    rewrite (H x) by (left; reflexivity). apply IH. intros y Hy. apply H. right. assumption.
+  Qed.
+
+  (* the string every encoder emits for a defined value parses back to that value *)
+  Lemma parse_primary : forall v, In v (values_spec cs) -> sem_parse t (DStr (sem_string t v)) = Some v.
+  Proof.
+    intros v Hv. rewrite (sem_string_spec d o t Hwf Hgen).
+    apply values_spec_in in Hv. destruct (string_spec_defined d v Hv) as [n [Hp Hs]].
+    rewrite Hs. destruct (primary_meaning _ _ _ Hp) as [c [Hc [Hval [Hname _]]]].
+    rewrite <- Hname, <- Hval. apply (parse_name d o t Hwf Hgen c Hc).
+  Qed.
+
+  Lemma encode_json_spec : forall v, encode_json t v = quote (string_spec d v).
+  Proof. intros v. unfold encode_json. rewrite (sem_string_spec d o t Hwf Hgen). reflexivity. Qed.
+  Lemma encode_text_spec : forall v, encode_text t v = string_spec d v.
+  Proof. intros v. unfold encode_text. apply (sem_string_spec d o t Hwf Hgen). Qed.
+  Lemma encode_yaml_spec : forall v, encode_yaml t v = string_spec d v.
+  Proof. intros v. unfold encode_yaml. apply (sem_string_spec d o t Hwf Hgen). Qed.
+
+  (* round trips: the library view of an encoded value is the emitted name (view soundness) *)
+  Lemma roundtrip_json : forall v jv, In v (values_spec cs) ->
+    jv_string jv = Some (sem_string t v) -> decode_json t jv = Some v.
+  Proof.
+    intros v jv Hv Hs. unfold decode_json, json_attempts. rewrite Hs. simpl.
+    rewrite (parse_primary v Hv). reflexivity.
+  Qed.
+  Lemma roundtrip_text : forall v tv, In v (values_spec cs) ->
+    tv_text tv = sem_string t v -> decode_text t tv = Some v.
+  Proof.
+    intros v tv Hv Hs. unfold decode_text, text_attempts. rewrite Hs. simpl.
+    rewrite (parse_primary v Hv). reflexivity.
+  Qed.
+  Lemma roundtrip_yaml : forall v yv, In v (values_spec cs) ->
+    yv_value yv = sem_string t v -> decode_yaml t yv = Some v.
+  Proof.
+    intros v yv Hv Hs. unfold decode_yaml, yaml_attempts_gen. rewrite Hs. simpl.
+    rewrite (parse_primary v Hv). reflexivity.
+  Qed.
+
+  (* ---- rejection *)
+  (* x is a constant name (or, under -caseInsensitive, a case variant of one) *)
+  Definition names_constant (x : dyn) : Prop :=
+    exists c, In c cs /\
+      (x = DStr (c_name c) \/
+       (o_ci o = true /\ exists s, x = DStr s /\ to_lower s = to_lower (c_name c))).
+
+  Lemma parse_reject_dyn : forall x, ~ names_constant x -> ~ is_trait_const d t x -> sem_parse t x = None.
+  Proof.
+    intros x Hn Ht. unfold sem_parse.
+    rewrite (B_all d o t Hgen), (B_opts d o t Hgen).
+    rewrite find_all_false.
+    - destruct (o_ci o) eqn:Hci; [|reflexivity].
+      destruct x as [ty p]. cbn [dval dty]. destruct p as [s| |]; try reflexivity.
+      destruct (String.eqb ty "string") eqn:Ety; [|reflexivity]. apply String.eqb_eq in Ety. subst ty.
+      rewrite find_all_false; [reflexivity|].
+      intros g Hg. apply String.eqb_neq. intro E.
+      destruct (L_inv d g Hg) as [c [Hc ->]]. cbn [to_gvalue g_name] in E.
+      apply Hn. exists c. split; [assumption|]. right. split; [assumption|]. exists s. split; [reflexivity|].
+      symmetry. assumption.
+    - intros g Hg. destruct (existsb (dyn_eqb x) (case_consts (t_cols t) g)) eqn:E; [|reflexivity].
+      exfalso. apply existsb_dyn_In in E. rewrite case_consts_split in E. destruct E as [E|E].
+      + destruct (L_inv d g Hg) as [c [Hc ->]]. cbn [to_gvalue g_name] in E.
+        apply Hn. exists c. split; [assumption|]. left. symmetry. assumption.
+      + apply Ht. exists g. split; assumption.
+  Qed.
+
+  Definition rejectable (x : dyn) : Prop := ~ names_constant x /\ ~ is_trait_const d t x.
+
+  Lemma reject_json : forall jv, (forall x, In x (json_attempts t jv) -> rejectable x) -> decode_json t jv = None.
+  Proof.
+    intros jv H. unfold decode_json. apply try_all_none. intros x Hx. destruct (H x Hx). apply parse_reject_dyn; assumption.
+  Qed.
+  Lemma reject_text : forall tv, (forall x, In x (text_attempts t tv) -> rejectable x) -> decode_text t tv = None.
+  Proof.
+    intros tv H. unfold decode_text. apply try_all_none. intros x Hx. destruct (H x Hx). apply parse_reject_dyn; assumption.
+  Qed.
+  Lemma reject_yaml : forall yv, (forall x, In x (yaml_attempts_gen true t yv) -> rejectable x) -> decode_yaml t yv = None.
+  Proof.
+    intros yv H. unfold decode_yaml. apply try_all_none. intros x Hx. destruct (H x Hx). apply parse_reject_dyn; assumption.
+  Qed.
+End Codecs.
+
+(* ---- the attempts a decoder makes are faithful readings of the document: a string reading
+   only when the library produced that string, an integer reading only when the library /
+   strconv produced that integer, a native reading only when the type's own unmarshaler
+   succeeded.  (This is what fails for the pinned YAML decoder.) *)
+Inductive reading (str : option string) (u64 i64 : option Z) (native : list (string * option payload))
+          (t : tables) (x : dyn) : Prop :=
+| RdStr : forall s, str = Some s -> dval x = PStr s -> reading str u64 i64 native t x
+| RdU64 : forall u c, u64 = Some u -> In c (t_cols t) -> col_parsable c = true ->
+                      x = typed_int c u -> reading str u64 i64 native t x
+| RdI64 : forall i c, i64 = Some i -> In c (t_cols t) -> col_parsable c = true ->
+                      x = typed_int c i -> reading str u64 i64 native t x
+| RdNative : forall c p, In c (t_cols t) -> col_parsable c = true ->
+                         lookup (col_type c) native = Some (Some p) -> x = typed c p ->
+                         reading str u64 i64 native t x.
+
+Lemma family_in : forall t k own c, In c (family t k own) -> In c (t_cols t) /\ col_parsable c = true.
+Proof.
+  intros t k own c H. unfold family in H. apply filter_In in H. destruct H as [H1 H2].
+  apply andb_true_iff in H2. destruct H2 as [H2 _]. apply andb_true_iff in H2. destruct H2 as [H2 _]. auto.
+Qed.
+Lemma family_own_in : forall t own c, In c (family_own t own) -> In c (t_cols t) /\ col_parsable c = true.
+Proof.
+  intros t own c H. unfold family_own in H. apply filter_In in H. destruct H as [H1 H2].
+  apply andb_true_iff in H2. destruct H2 as [H2 _]. auto.
+Qed.
+
+Lemma native_attempts_reading : forall str u64 i64 native t cols x,
+  (forall c, In c cols -> In c (t_cols t) /\ col_parsable c = true) ->
+  In x (native_attempts cols native) -> reading str u64 i64 native t x.
+Proof.
+  intros str u64 i64 native t cols x Hc H. unfold native_attempts in H. apply in_flat_map in H.
+  destruct H as [c [Hin Hx]]. destruct (lookup (col_type c) native) as [[p|]|] eqn:E; simpl in Hx; try contradiction.
+  destruct Hx as [<-|[]]. destruct (Hc c Hin) as [H1 H2]. eapply RdNative; eauto.
+Qed.
+
+Lemma json_attempts_faithful : forall t jv x, In x (json_attempts t jv) ->
+  reading (jv_string jv) (jv_u64 jv) (jv_i64 jv) (jv_native jv) t x.
+Proof.
+  intros t jv x H. unfold json_attempts in H.
+  apply in_app_or in H. destruct H as [H|H].
+  - destruct (jv_string jv) as [s|] eqn:E; [|contradiction]. destruct H as [<-|H].
+    + eapply RdStr; reflexivity.
+    + apply in_map_iff in H. destruct H as [c [<- _]]. eapply RdStr; reflexivity.
+  - apply in_app_or in H. destruct H as [H|H].
+    + destruct (jv_u64 jv) as [u|] eqn:E; [|contradiction]. apply in_map_iff in H. destruct H as [c [<- Hc]].
+      destruct (family_in _ _ _ _ Hc). eapply RdU64; eauto.
+    + apply in_app_or in H. destruct H as [H|H].
+      * destruct (jv_i64 jv) as [i|] eqn:E; [|contradiction]. apply in_map_iff in H. destruct H as [c [<- Hc]].
+        destruct (family_in _ _ _ _ Hc). eapply RdI64; eauto.
+      * eapply native_attempts_reading; [|exact H]. intros c Hc. apply (family_own_in _ _ _ Hc).
+Qed.
+
+Lemma text_attempts_faithful : forall t tv x, In x (text_attempts t tv) ->
+  reading (Some (tv_text tv)) None None (tv_native tv) t x.
+Proof.
+  intros t tv x H. unfold text_attempts in H. destruct H as [<-|H].
+  - eapply RdStr; reflexivity.
+  - apply in_app_or in H. destruct H as [H|H].
+    + apply in_map_iff in H. destruct H as [c [<- _]]. eapply RdStr; reflexivity.
+    + eapply native_attempts_reading; [|exact H]. intros c Hc. apply (family_own_in _ _ _ Hc).
+Qed.
+
+Lemma yaml_attempts_faithful : forall t yv x, In x (yaml_attempts_gen true t yv) ->
+  reading (Some (yv_value yv)) (yv_u64 yv) (yv_i64 yv) (yv_native yv) t x.
+Proof.
+  intros t yv x H. unfold yaml_attempts_gen in H. destruct H as [<-|H].
+  - eapply RdStr; reflexivity.
+  - apply in_app_or in H. destruct H as [H|H].
+    + apply in_map_iff in H. destruct H as [c [<- _]]. eapply RdStr; reflexivity.
+    + apply in_app_or in H. destruct H as [H|H].
+      * destruct (yv_u64 yv) as [u|] eqn:E; [|contradiction]. apply in_map_iff in H. destruct H as [c [<- Hc]].
+        destruct (family_in _ _ _ _ Hc). eapply RdU64; eauto.
+      * apply in_app_or in H. destruct H as [H|H].
+        -- destruct (yv_i64 yv) as [i|] eqn:E; [|contradiction]. apply in_map_iff in H. destruct H as [c [<- Hc]].
+           destruct (family_in _ _ _ _ Hc). eapply RdI64; eauto.
+        -- eapply native_attempts_reading; [|exact H]. intros c Hc. apply (family_own_in _ _ _ Hc).
+Qed.
+
+(* a document none of whose faithful readings names a constant or is a parsable trait constant
+   is rejected — by each of the three decoders *)
+Lemma reject_json_readings : forall d o t jv, gen d o = Built t ->
+  (forall x, reading (jv_string jv) (jv_u64 jv) (jv_i64 jv) (jv_native jv) t x -> rejectable d o t x) ->
+  decode_json t jv = None.
+Proof.
+  intros d o t jv Hg H. apply (reject_json d o t Hg). intros x Hx. apply H. apply json_attempts_faithful. assumption.
+Qed.
+Lemma reject_text_readings : forall d o t tv, gen d o = Built t ->
+  (forall x, reading (Some (tv_text tv)) None None (tv_native tv) t x -> rejectable d o t x) ->
+  decode_text t tv = None.
+Proof.
+  intros d o t tv Hg H. apply (reject_text d o t Hg). intros x Hx. apply H. apply text_attempts_faithful. assumption.
+Qed.
+Lemma reject_yaml_readings : forall d o t yv, gen d o = Built t ->
+  (forall x, reading (Some (yv_value yv)) (yv_u64 yv) (yv_i64 yv) (yv_native yv) t x -> rejectable d o t x) ->
+  decode_yaml t yv = None.
+Proof.
+  intros d o t yv Hg H. apply (reject_yaml d o t Hg). intros x Hx. apply H. apply yaml_attempts_faithful. assumption.
+Qed.
+
+(* integer readings are not narrowed for the 64-bit trait kinds *)
+Lemma wrap_to_id_signed64 : forall x, - 2 ^ 63 <= x < 2 ^ 63 -> wrap_to true 64 x = x.
+Proof.
+  intros x Hx. unfold wrap_to. change (2 ^ (64 - 1)) with 9223372036854775808.
+  change (2 ^ 63) with 9223372036854775808 in Hx. change (2 ^ 64) with 18446744073709551616.
+  destruct (Z_lt_dec x 0) as [Hneg|Hpos].
+  - assert (E : x mod 18446744073709551616 = x + 18446744073709551616).
+    { symmetry. apply Z.mod_unique with (q := -1); lia. }
+    rewrite E. simpl. destruct (Z.leb_spec 9223372036854775808 (x + 18446744073709551616)); lia.
+  - rewrite Z.mod_small by lia. simpl. destruct (Z.leb_spec 9223372036854775808 x); lia.
+Qed.
+Lemma wrap_to_id_unsigned64 : forall x, 0 <= x < 2 ^ 64 -> wrap_to false 64 x = x.
+Proof. intros x Hx. unfold wrap_to. simpl. apply Z.mod_small. assumption. Qed.
+
+Lemma conv_int_id_64 : forall b x,
+  (In b [BUntypedInt; BInt; BInt64] -> - 2 ^ 63 <= x < 2 ^ 63 -> conv_int b x = x) /\
+  (In b [BUint; BUint64] -> 0 <= x < 2 ^ 64 -> conv_int b x = x).
+Proof.
+  intros b x. split; intros Hb Hx; simpl in Hb.
+  - destruct Hb as [<-|[<-|[<-|[]]]]; apply wrap_to_id_signed64; assumption.
+  - destruct Hb as [<-|[<-|[]]]; apply wrap_to_id_unsigned64; assumption.
+Qed.
+
+(* ---- the pinned YAML decoder: strconv guards inverted.  Witness: P0/P1/P2 with the parsable
+   integer trait Code = 0/7/9; the scalar `garbage` (not a name, not a number) decodes to P0,
+   and `7` (a genuine trait value) is rejected. *)
+Definition yw_cell (var : string) (z : Z) : cell :=
+  {| cl_var := var; cl_expr := dec z; cl_val := {| dty := "int"; dval := PInt z |} |}.
+Definition yw_defn : defn :=
+  {| d_ty := {| ty_name := "E0"; ty_signed := true; ty_bits := 64 |};
+     d_consts := [ {| c_name := "P0"; c_val := 0; c_dep := false; c_cells := [yw_cell "_Code" 0] |};
+                   {| c_name := "P1"; c_val := 1; c_dep := false; c_cells := [yw_cell "_" 7] |};
+                   {| c_name := "P2"; c_val := 2; c_dep := false; c_cells := [yw_cell "_" 9] |} ];
+     d_types := [("int", {| ti_bkind := BUntypedInt; ti_json_own := false; ti_yaml_own := false; ti_text_own := false |})] |}.
+Definition yw_opts : opts :=
+  {| o_json := true; o_yaml := true; o_text := true; o_ci := false; o_notraits := false; o_parsable := ["Code"] |}.
+Definition yw_garbage : yview := {| yv_value := "garbage"; yv_u64 := None; yv_i64 := None; yv_native := [] |}.
+Definition yw_seven : yview := {| yv_value := "7"; yv_u64 := Some 7; yv_i64 := Some 7; yv_native := [] |}.
+
+Lemma decode_yaml_orig_refuted :
+  exists t, gen yw_defn yw_opts = Built t
+            /\ decode_yaml_orig t yw_garbage = Some 0 /\ decode_yaml_orig t yw_seven = None
+            /\ decode_yaml t yw_garbage = None /\ decode_yaml t yw_seven = Some 1.
+Proof. eexists. split; [vm_compute; reflexivity|]. vm_compute. repeat split. Qed.
